@@ -69,6 +69,10 @@ class FlattenBase(Contract):
             return [(s2, k)]
         return None
 
+    def on_python_result(self, eng, st, f, args, r, n):
+        if 'reg_flatten_func' in f.ref.sexpr():
+            st.ghost['flatten_result'] = r.ref          # the result of the custom flatten function of THIS node
+
     def on_sort(self, eng, st, o, n):
         # C13: dict keys are sorted exactly when DictShouldBeSorted and the node is not an OrderedDict
         node = st.get('node')
@@ -123,7 +127,27 @@ class FlattenBase(Contract):
             # the node records the classification made for THIS object before any of its callbacks ran: kind and
             # registration are never re-read afterwards (a flatten function may change the registry meanwhile)
             out += [('root-kind-is-the-classification-of-the-object', t.sel('kind', last) == cl[0]),
-                    ('root-registration-is-the-one-whose-flatten-function-was-called', t.sel('custom', last) == cl[1])]
+                    ('root-registration-is-the-one-whose-flatten-function-was-called', t.sel('custom', last) == cl[1]),
+                    # unflatten rebuilds dict / defaultdict in source key order and pickling requires the field (C01, C11)
+                    ('exactly-dict-and-defaultdict-roots-record-their-original-key-order',
+                     z3.Or(cl[0] == K['Dict'], cl[0] == K['DefaultDict']) == (t.sel('original_keys', last) != NULL))]
+            # payload of the root node (what paths / accessors / unflatten later read)
+            h = cx.old('handle').ref
+            out.append(('namedtuple-or-structseq-root-records-the-class',
+                        z3.Implies(z3.Or(cl[0] == K['NamedTuple'], cl[0] == K['StructSequence']),
+                                   t.sel('node_data', last) == M.py_type(h))))
+            fr = cx.st.ghost.get('flatten_result')
+            if fr is not None:
+                as_tuple = lambda x: z3.If(M.py_is_tuple(x), x, z3.Function('py_convert_tuple', Ref, Ref)(x))
+                T = as_tuple(fr)
+                ent = M.py_item(T, 2)
+                has_entries = z3.And(M.py_len(T) == 3, ent != PYNONE)
+                out += [('custom-root-records-the-metadata-of-its-flatten-result',
+                         z3.Implies(cl[0] == K['Custom'], t.sel('node_data', last) == M.py_item(T, 1))),
+                        ('custom-root-records-the-path-entries-of-its-flatten-result',
+                         z3.Implies(cl[0] == K['Custom'], t.sel('node_entries', last) == z3.If(has_entries, as_tuple(ent), NULL)))]
+            else:
+                out.append(('non-custom-root-has-no-path-entries', t.sel('node_entries', last) == NULL))
         if 'paths' in self.extra_vectors:
             p, p0 = cx.obj(cx.var('paths')), cx.obj(cx.old('paths'), cx.entry)
             out.append(('one-path-per-leaf', p.len - p0.len == l.len - l0.len))
